@@ -29,6 +29,7 @@ def parse(text: str, statement_stream_processor: "StatementStreamProcessor", *, 
     pr = _ParseTreeProcessor(statement_stream_processor, strict=strict)
     try:
         pr.visit(_get_grammar().parse(text))  # type: ignore
+        pr.flush()  # The text may end without a line feed: commit the last attribute and its trailing comment.
     except _error.Error as ex:
         # Inject error location. If this exception is being propagated from a recursive instance, it already has
         # its error location populated, so nothing will happen here.
@@ -147,6 +148,10 @@ class _ParseTreeProcessor(parsimonious.NodeVisitor):
     def current_line_number(self) -> int:
         assert self._current_line_number > 0
         return self._current_line_number
+
+    def flush(self) -> None:
+        """Shall be invoked once after the entire text has been visited."""
+        self._flush_comment()
 
     # Misc. helpers
     def _flush_comment(self) -> None:
